@@ -12,7 +12,7 @@ from symx import core
 from vf import machine as MC
 from vf.unit import eq, holds
 
-FAMILIES = ['isa_dp', 'isa_ls', 'isa_ls_wb', 'isa_ls_hd', 'isa_br', 'isa_sys', 'isa_simd', 'isa_sat', 'isa_mul']
+FAMILIES = ['isa_dp', 'isa_ls', 'isa_ls_wb', 'isa_ls_hd', 'isa_br', 'isa_sys', 'isa_simd', 'isa_sat', 'isa_mul', 'isa_blk']
 _loaded = set()
 
 
@@ -34,7 +34,7 @@ def load_tables(mods=None):
 
 def mk_step(enc, arch=6, sec=True, virt=False, vmsa=False, mode=None, it='any', e_sym=False, sym_sys=None,
             set_sys=None, tables=None, expect_class=True, extra_assume=None, fix=None, failed_cond=False,
-            havoc_scratch=False, foreign_config=None, reg_values=None):
+            havoc_scratch=False, foreign_config=None, reg_values=None, prehistory=None):
     """unit: all fields of the encoding, all registers/flags/mode symbolic"""
     cache = {}
     from vf import known
@@ -117,6 +117,44 @@ def mk_step(enc, arch=6, sec=True, virt=False, vmsa=False, mode=None, it='any', 
 
         def run(m):
             m.escaped = None
+            if prehistory == 'other-iset':
+                # history before the snapshot: the same instruction bits are first executed in the OTHER instruction
+                # set (whatever happens, incl. exceptions), then the machine is put back into the snapshot state
+                regs = m.arm.registers
+                c0 = regs.cpsr.value
+                regs.cpsr.t = 0 if E.thumb else 1
+                regs.cpsr.it = 0
+                if E.length == 32:
+                    # the same 32 bits laid out for the other instruction set's fetch
+                    w = m.word
+                    if E.thumb:   # now ARM: little-endian word
+                        bs = [P.bits(w, 8 * i + 7, 8 * i) for i in range(4)]
+                    else:         # now Thumb: hw1 then hw2, each little-endian
+                        bs = [P.bits(w, 23, 16), P.bits(w, 31, 24), P.bits(w, 7, 0), P.bits(w, 15, 8)]
+                    pc = m.pre.R['PC']
+                    if env.symbolic:
+                        arr = m.mem.array
+                        for i, b in enumerate(bs):
+                            arr = z3.Store(arr, z3.simplify(pc + i), z3.simplify(b))
+                        m.mem.array = arr
+                    else:
+                        pcv = z3.simplify(pc).as_long()
+                        from vf.machine import ReplayMem
+                        for i, b in enumerate(bs):
+                            a = (pcv + i) & 0xFFFFFFFF
+                            v = z3.simplify(b).as_long()
+                            if isinstance(m.arm.mem, ReplayMem):
+                                m.arm.mem.content[a] = v
+                            else:
+                                for mc in m.arm.mem.memories:
+                                    if mc.beginning <= a < mc.end:
+                                        mc.mem.memory_array[a - mc.beginning] = v
+                try:
+                    m.arm.emulate_cycle()
+                except Exception:
+                    pass
+                m.reinstall_pre()
+                m.decoded, m.executed = [], []
             try:
                 m.arm.emulate_cycle()
             except Exception as ex:
